@@ -34,6 +34,8 @@ def run(ctx):
     read1(ctx)
     seqbase(ctx)
     partialmax(ctx)
+    publishes_all(ctx)
+    contains(ctx)
 
 
 def _callers(F, target):
@@ -423,3 +425,69 @@ def partialmax(ctx):
             if any("max" in x for x in a) and any(x.startswith("arg2") for x in a):
                 ok = True
     R.require(ok, "max-value", b.where(), "self.max = max(self.max, Some(version))", fail_msg="self.max is not set to max(self.max, Some(version)) in insert_partial")
+
+
+# ------------------------------------------------------------------------------------------------ publishes_all
+def publishes_all(ctx):
+    """commit_snapshot must publish all three components of the snapshot; insert_partial must merge seqs of a known partial"""
+    F = ctx.F
+    R = ctx.rule("C02.publishes", "K6", "commit_snapshot copies needed, partials and max from the snapshot's same-named fields; insert_partial merges the new seqs into an existing partial")
+    b = F.get(COMMIT_SNAPSHOT)
+    if R.anchor(b, "commit_snapshot", "fn " + COMMIT_SNAPSHOT):
+        for f in ("needed", "partials", "max"):
+            sites = [x for x in cm.field_mutation_sites(F, BV, f, [b]) if x[2].startswith("assign")]
+            ok = False
+            src = set()
+            for (bd, bb, how, line) in sites:
+                t = b.term(bb)
+                # `self.f = mem::take(&mut snap.f)` / `snap.f.take()`: the call writing into self.f
+                if how == "assign-call":
+                    from corrolint.facts import Call
+                    c = Call(b, bb, t)
+                    for a in c.args:
+                        if op_place(a) is not None:
+                            src |= cm.deep_arg_fields(b, op_place(a), (bb, "T"))
+                for i, st in enumerate(b.blocks[bb]["s"]):
+                    if st[0] == "A" and st[3] == line and st[2][0] == "use" and op_place(st[2][1]) is not None:
+                        src |= cm.deep_arg_fields(b, op_place(st[2][1]), (bb, i))
+            ok = any(x.startswith("arg2") and x.endswith(f) for x in src)
+            R.require(bool(sites) and ok, "copies." + f, b.where(), "self.%s is taken from snap.%s" % (f, f),
+                      fail_msg="commit_snapshot does not publish snap.%s into self.%s (sources: %s): the in-memory view would diverge from the rows the transaction just committed" % (f, f, sorted(src)))
+    ip = F.get(INSERT_PARTIAL)
+    if R.anchor(ip, "insert_partial", "fn " + INSERT_PARTIAL):
+        ext = [c for c in ip.calls if re.search(r"RangeInclusiveSet::<T.*>::(extend|insert)$|::extend$", c.f) and "CrsqlSeq" in (c.self_ty + c.fi)]
+        ok = False
+        for c in ext:
+            a = cm.deep_arg_fields(ip, op_place(c.args[1]), (c.bb, "T")) if len(c.args) > 1 and op_place(c.args[1]) is not None else set()
+            if any(x.startswith("arg3") and "seqs" in x for x in a):
+                ok = True
+        R.require(ok, "merges-seqs", ip.where(), "an already known partial has the new chunk's seqs merged in (got.seqs.extend(partial.seqs))",
+                  fail_msg="insert_partial no longer merges the incoming seqs into an existing partial: received chunks would be forgotten in memory while their rows are stored")
+
+
+# ------------------------------------------------------------------------------------------------ contains
+def contains(ctx):
+    F = ctx.F
+    R = ctx.rule("C02.contains", "K9", "contains_version(v): false if v lies in a needed range; otherwise true exactly when max >= v")
+    b = F.get(BV + "::contains_version")
+    if not R.anchor(b, "contains_version", "fn BookedVersions::contains_version"):
+        return
+    cmps = [c for c in b.calls if flow.is_compare(c) and "CrsqlDbVersion" in c.self_ty and c.name() in ("lt", "le", "gt", "ge")]
+    anys = [c for c in b.calls if c.name() == "any"]
+    if not (R.require(len(cmps) == 1, "head-compare", b.where(), "one ordering comparison with the head", fail_msg="expected one ordering comparison max ? version in contains_version, found %d" % len(cmps))
+            and R.anchor(anys, "needed.any", "needed.iter().any(..)")):
+        return
+    c, a = cmps[0], anys[0]
+    o0 = cm.deep_arg_fields(b, op_place(c.args[0]), (c.bb, "T"))
+    a_first = any("max" in x for x in o0)   # role A = self.max, B = version
+    res = {}
+    for o in ("<", "=", ">"):
+        for inneeded in (False, True):
+            atom = {c.bb: flow.compare_value(c.name(), o, a_first), a.bb: inneeded}
+            _, rets = flow.eval_guard(b, atom)
+            res[(o, inneeded)] = rets
+    want = {("<", False): {False}, ("=", False): {True}, (">", False): {True}, ("<", True): {False}, ("=", True): {False}, (">", True): {False}}
+    R.require(res == want, "truth-table", c.where(), "contains_version over (max ? v, v in needed): %s" % {k: sorted(map(str, v)) for k, v in res.items()},
+              fail_msg="contains_version truth table is %s; expected held iff (max >= v and v not needed): a version equal to the head or inside a gap would be misreported" % {k: sorted(map(str, v)) for k, v in res.items()})
+    fl = cm.deep_names(b, op_place(a.args[0]), (a.bb, "T"))[0]
+    R.require("needed" in fl, "any-over-needed", a.where(), "the membership test ranges over self.needed")
